@@ -51,6 +51,7 @@ fixed("C09", "eq refl list-with-idless-member", "0bd8bfb", "ItemCollection.Equal
 fixed("C09", "eq sens id-*", "d6489cd", "collection Equals ignored a failed conversion of the other item: collections of different kinds with different ids compared equal", "OrderedCollectionPage{id A} vs OrderedCollection{id B}")
 fixed("C01", "json-rt Source.MediaType str", "886738d", "a source's media type lost a quote at its end when read from JSON (GetAPSource handed the decoded string to MimeType.UnmarshalJSON, which trims quotes): text/plain; charset=\"utf-8\" came back without its closing quote; noticed by a sub-agent while it was seeding round 15, then shown by the new quoted-param shapes", "cells: Object.Source source-mime-quoted-param")
 fixed("C08", "view *IntransitiveActivity Activity * layout", "4c77eca", "IntransitiveActivity.Actor was declared with a distinct interface type (CanReceiveActivities) at the place of Activity.Actor (Item): an actor written through the in-place view carried the other type's method table, and activity.Actor.(IRI) / == on it failed afterwards; first noticed by a sub-agent while it was seeding round 16 (after FlattenActivityProperties the actor did not assert as an IRI), shown once the layout oracle required identical interface types", "cells: OnIntransitiveActivity Activity ptr")
+fixed("C04", "total hang UnmarshalJSON decode chain-twins:*", "ab08558", "CollectionPage.Equals and OrderedCollectionPage.Equals compared current, first and last through the embedded collection and then again directly: two equal chains of pages nested n deep cost 2^n comparisons, so decoding {\"type\":\"Note\",\"tag\":[P,P]} with P a 28-deep chain of pages through first/last/current did not return within the 10 s watchdog")
 # ---- C10
 fixed("C10", "recipients Block panic@removeFromCollection nil-entry", "1a20acb", "Recipients() of a Block whose lists hold a nil entry panicked", "pairs layer: Activity[Block] To=[nil]")
 fixed("C10", "recipients Block panic@(*Actor).GetID", "2fb4e33", "Recipients() of a Block whose lists hold a nil *Actor (or whose blocked object is a nil pointer) panicked: the entries were tested with == nil", "near layer: Activity[Block] To=[nilptr#3]")
